@@ -526,6 +526,10 @@ def gen_cases(run, per_class):
                 if rt == "construct" and site.startswith("custom_properties key at <top>"):
                     cs["requested"] = True
                 cases.append(cs)
+                if rt == "construct" and isinstance(x, dict) and "custom_properties" not in x and (i == 0 or r.random() < 0.2):
+                    # argument form: the constructor's custom_properties= given but EMPTY requests nothing
+                    cases.append(dict({k0: v0 for k0, v0 in cs.items() if k0 != "twice"}, data=dict(copy.deepcopy(x), custom_properties={}),
+                                      site=site + " + empty custom_properties= argument"))
                 if cs["route"] == "construct" and "Bundle" in cid and isinstance(x.get("objects"), list) \
                         and (cs.get("prebuilt") or r.random() < 0.5):
                     cases.append(dict({k0: v0 for k0, v0 in cs.items() if k0 != "twice"}, route="construct_positional"))
